@@ -6,7 +6,7 @@ from harness.drivers import engine_encode, engine_cases_resp
 
 ID = "C13"
 PROP_FILE = "Props/C13.v"
-THEOREMS = ["C13_inputs_explained", "C13_responses_delivered", "C13_returns_run_uids"]
+THEOREMS = ["C13_inputs_explained", "C13_responses_delivered", "C13_returns_run_uids", "C13_full_refuted"]
 COQ_IMPORTS = "From BV Require Import Engine.RE Engine.REInst Engine.RespMon.\nFrom Coq Require Import ZArith."
 
 
@@ -38,17 +38,21 @@ def finding(case, obs):
 
 
 def coq_term(case, obs):
-    """the model reproduces the observation AND the Coq monitor run on the model's trace of the plan of the first
-    call classifies it exactly like the implementation-side monitor run on the real trace"""
+    """the model reproduces the observation AND the Coq monitor run on the model's trace classifies the plan of every
+    call (up to three) exactly like the implementation-side monitor run on the real trace"""
     if obs.get("errors") or case.get("no_model"):
         return None
     try:
         e = engine_encode.Enc(case, obs).encode()
     except engine_encode.Unsupported:
         return None
-    acc, a = rt.coq_agree_args(obs, 0)
     cb = engine_encode.cb
-    return ("let tp := %s in let ld := %s in let ev := %s in "
-            "andb (check tp ld %s %s %s ev %s) (resp_agree (chk 0 mon0 (model_tr tp ld %s %s %s ev)) %s %s)"
-            % (e["tapes"], e["ledger"], e["evs"], e["paus"], e["stag"], e["rec"], e["obs"],
-               e["paus"], e["stag"], e["rec"], cb(acc), cb(a)))
+    ncalls = sum(1 for x in obs["obs"] if x[0] == "main" and x[1] == "call")
+    agree = []
+    for pid in range(min(ncalls, 3)):
+        acc, a = rt.coq_agree_args(obs, pid)
+        agree.append("(resp_agree (chk %d mon0 tr) %s %s)" % (pid, cb(acc), cb(a)))
+    return ("let tp := %s in let ld := %s in let ev := %s in let tr := model_tr tp ld %s %s %s ev in "
+            "andb (check tp ld %s %s %s ev %s) (%s)"
+            % (e["tapes"], e["ledger"], e["evs"], e["paus"], e["stag"], e["rec"],
+               e["paus"], e["stag"], e["rec"], e["obs"], rt.coq_and(agree)))
